@@ -223,7 +223,9 @@ func nilSafe(ph *ssa.Phi, nilEdges map[int]bool, use ssa.Instruction) bool {
 			if nilSide < 0 {
 				continue
 			}
-			same := func(c ssa.Value) bool { return c == ifi.Cond || sameAccessPath(c, ifi.Cond) || sameNilTest(c, ifi.Cond) }
+			same := func(c ssa.Value) bool {
+				return c == ifi.Cond || sameAccessPath(c, ifi.Cond) || sameNilTest(c, ifi.Cond)
+			}
 			if dominatedByEdge(b, nilSide == 1, same) {
 				return true
 			}
